@@ -6,7 +6,7 @@ for d in seeded/*/; do
   id=$(basename $d)
   [ -n "$1" ] && [ "$1" != "$id" ] && continue
   prop=$(python3 -c "import json;print(json.load(open('$d/meta.json'))['property'])")
-  git -C /repo apply $d/patch.diff || { echo "$id: patch does not apply" | tee $d/detect.txt; continue; }
+  git -C /repo apply /verif/$d/patch.diff || { echo "$id: patch does not apply" | tee $d/detect.txt; continue; }
   ./check $prop quick > /tmp/seedrun.log 2>&1; rc=$?
   git -C /repo checkout -- .
   { echo "check $prop quick on /repo + $id/patch.diff: exit $rc"; grep -E "^VIOLATION|^$prop quick" /tmp/seedrun.log | head -6; } | tee $d/detect.txt
